@@ -106,10 +106,16 @@ def model_leaves(m):
     return [m]
 
 
-def registry_state():
+def registry_state(full=True):
+    """enabled units and equivalencies of the current unit registry; the cheap form (registry object, sizes,
+    identity of every equivalency) runs after every call, the full form (identity of every enabled unit) when a
+    history starts and ends"""
     import astropy.units as u
     r = u.get_current_unit_registry()
-    return (frozenset(id(x) for x in r.all_units), tuple(id(e) for e in r.equivalencies), len(r.equivalencies))
+    cheap = (id(r), len(r.all_units), tuple(id(e) for e in r.equivalencies))
+    if not full:
+        return cheap
+    return cheap + (frozenset(id(x) for x in r.all_units),)
 
 
 # ------------------------------------------------------------------ one history on the implementation
@@ -134,7 +140,9 @@ class World:
         self.integ0 = conf.default_integrator
         np.seterr(**DEF_ERR)
         self.failures = []      # (signature, message, step index)
-        self.scale = 0.0
+        # magnitude of the numbers in play: absolute floor of the numerical comparisons (cancellation to 0)
+        self.scale = max([0.0] + [float(np.max(np.abs(arr_values(a)))) for a, d in zip(self.arrs, self.desc)
+                                  if d['role'] != 'wave' and len(d['data'])])
 
     # ---------------------------------------------------------------- bookkeeping
     def add_obj(self, ob, kind, bad):
@@ -322,10 +330,13 @@ class World:
             out = {'ok': {'obj': self.add_obj(res, O.kind_of(res), self.bad[a])}}
         return {'do': 'rmul', 'v': st['v'], 'a': a}, out, {'a': a, 'b': None}
 
-    def overlap(self, band, src):
+    def overlap(self, band, src, bad):
+        """the verdict of check_overlap (C06's subject, data for the model); None: check_overlap itself fails
+        numerically (a band without positive throughput, ...), the call is then outside the domain"""
         r = self.guarded(lambda: band.check_overlap(src))
-        return {'full': 'full', 'partial_most': 'partial_most', 'partial_notmost': 'partial_notmost',
-                'none': 'none'}.get(r.get('ok'), 'full')
+        if 'err' in r:
+            return 'full' if bad else None
+        return r['ok']
 
     def do_normalize(self, st):
         from synphot import units
@@ -335,7 +346,9 @@ class World:
         if o is None or band is None:
             return None, None, None
         sp, bp = self.objs[o], self.objs[band]
-        stat = self.overlap(bp, sp) if self.kinds[band] == 'bandpass' else 'full'
+        stat = self.overlap(bp, sp, self.bad[o]) if self.kinds[band] == 'bandpass' else 'full'
+        if stat is None:
+            return None, None, None
         val = {'flam': 1e-13 * units.FLAM, 'photlam': 2.0 * units.PHOTLAM, 'abmag': 20 * u.ABmag,
                'number': 3.0, 'count': 100 * u.count}[st['val']]
         kw = {'area': 45238.93416 * units.AREA} if st['val'] == 'count' else {}
@@ -367,7 +380,11 @@ class World:
         if self.bad[o]:
             return d
         r = self.guarded(f)
-        if 'ok' in r and all(map(math.isfinite, r['ok'][0] + r['ok'][1])):
+        if 'err' in r and r['err'] not in ('SynphotError', 'UnsortedWavelength', 'NotImplementedError'):
+            return None         # sampling the spectrum fails numerically (0/0 in a ratio, ...): outside the domain
+        if 'ok' in r:
+            if not all(map(math.isfinite, r['ok'][0] + r['ok'][1])):
+                return None     # a spectrum with NaN/inf samples (0/0 in a ratio): outside the domain
             d = {'xs': qs(r['ok'][0]), 'ys': qs(r['ok'][1]), 'front': r['ok'][2], 'back': r['ok'][3]}
         return d
 
@@ -376,7 +393,10 @@ class World:
         if o is None:
             return None, None, None
         conc = {'do': 'taper', 'o': o}
-        conc.update(self.taper_data(o))
+        td = self.taper_data(o)
+        if td is None:
+            return None, None, None
+        conc.update(td)
         out = self.guarded(lambda: self.objs[o].taper())
         if 'ok' in out:
             res = out['ok']
@@ -394,7 +414,9 @@ class World:
             return None, None, None
         sp, bp = self.objs[src], self.objs[band]
         ok_kinds = self.kinds[src] == 'source' and self.kinds[band] == 'bandpass'
-        stat = self.overlap(bp, sp) if ok_kinds else 'full'
+        stat = self.overlap(bp, sp, self.bad[src]) if ok_kinds else 'full'
+        if stat is None:
+            return None, None, None
         conc = {'do': 'observation', 'src': src, 'band': band, 'force': st['force'], 'stat': stat, 'binset': None}
         kw = {}
         if st.get('binset') is not None:
@@ -403,7 +425,10 @@ class World:
                 kw['binset'] = arr
                 conc['binset'] = a
         if st['force'] == 'taper' and ok_kinds:
-            conc.update(self.taper_data(src))
+            td = self.taper_data(src)
+            if td is None:
+                return None, None, None
+            conc.update(td)
         out = self.guarded(lambda: Observation(sp, bp, force=st['force'], **kw))
         conc['num_err'] = out.get('err')
         info = {'src': src, 'band': band, 'stat': stat, 'force': st['force'], 'tapered': None}
@@ -469,7 +494,7 @@ class World:
         if st.get('ext') is not None and self.dicts:
             ext = st['ext'] % len(self.dicts)
             kw['ext_header'] = self.dicts[ext]
-        if st.get('reuse') and self.files:
+        if st.get('reuse') is not None and self.files:
             fn = self.files[st['reuse'] % len(self.files)]
         else:
             fn = os.path.join(self.tmp, 'f%d.fits' % len(self.files))
@@ -605,7 +630,7 @@ class World:
             return set(), {info['o']}
         return set(), set()
 
-    def observe(self, k, conc, out, info, allowed, n_before):
+    def observe(self, k, conc, out, info, allowed, n_before, last=False):
         """compare the world with its snapshot; record changes and oracle failures"""
         import astropy.units as u
         from synphot.config import conf
@@ -639,9 +664,9 @@ class World:
                                                       'all_ignore' if rec['np'] == 'ignore' else 'changed'),
                       'np.geterr() is %s after %s%s' % (g, d, ' raised ' + out.get('cls', '') if raised else ''), k)
             np.seterr(**DEF_ERR)
-        rs = registry_state()
-        rec['units'] = 0 if rs == self.reg0 else 1
-        if rs != self.reg0:
+        rs = registry_state(full=last)
+        rec['units'] = 0 if rs == self.reg0[:len(rs)] else 1
+        if rs != self.reg0[:len(rs)]:
             self.fail('%s:unit_registry_changed' % d, 'enabled units / equivalencies changed by %s' % d, k)
             u.set_enabled_units(list(self.reg_units))
             u.set_enabled_equivalencies(self.reg_equiv)
@@ -766,7 +791,7 @@ def impl_call(case):
             # property of the object graph, which no call rewires (objects' `_model` is never re-assigned;
             # the bit-comparison below would catch it)
             allowed = w.allowed_before(conc, info or {})
-            rec = w.observe(k, conc, out, info or {}, allowed, n_before)
+            rec = w.observe(k, conc, out, info or {}, allowed, n_before, last=(k == len(case['steps']) - 1))
             w.check_result_meta(k, conc, out, info or {}, metas_before)
             rec['out'] = {kk: v for kk, v in out.items() if kk in ('ok', 'err')}
             steps.append({'conc': conc, 'rec': rec, 'msg': out.get('msg')})
@@ -779,8 +804,13 @@ def impl_call(case):
 def model_case(case, impl):
     steps = [s['conc'] for s in impl['ok'] if s is not None]
     arrays = [{'data': a['data'], 'container': a['container']} for a in case['arrays']]
-    return {'op': 'heap_history', 'const': case['const'], 'probe': case['probe'], 'arrays': arrays,
-            'dicts': case['dicts'], 'steps': steps}
+    mc = {'op': 'heap_history', 'const': case['const'], 'probe': case['probe'], 'arrays': arrays,
+          'dicts': case['dicts'], 'steps': steps}
+    if os.environ.get('C19_FIXES') is not None:
+        # scratch-worktree runs against the pending patches: the model version that contains the named repairs
+        # (normal runs use Fixes.current of lean/Synphot/Core/Heap.lean)
+        mc['fixes'] = os.environ['C19_FIXES']
+    return mc
 
 
 def compare(case, impl, model):
@@ -795,6 +825,12 @@ def compare(case, impl, model):
         where = 'step[%d:%s]' % (n, conc['do'])
         # outcome
         io, mo = rec['out'], m['out']
+        if mo.get('err') == 'NaN' or (isinstance(mo.get('ok'), dict) and 'vals' in mo['ok'] and mo['ok']['vals'] is None):
+            # the model refuses to sample where a division by zero occurs (NumPy yields inf/nan *values*, which a
+            # later operation may turn into finite numbers again: 1/inf = 0), as in C02;
+            # sampling an object whose numbers the model does not know (black body, ...): only the class
+            if 'ok' in io or io.get('err') == 'NaN':
+                io = mo = {'ok': None}
         if ('err' in io) != ('err' in mo) or ('err' in io and io['err'] != mo['err']):
             return '%s: outcome impl %s (%s) vs model %s' % (where, core._short(io), s.get('msg'), core._short(mo))
         if 'ok' in io and isinstance(io['ok'], dict):
@@ -836,6 +872,8 @@ def compare(case, impl, model):
             mv = m['samples'].get(i)
             if mv is None or v is None:
                 continue        # numbers unknown to the model (black body, renormalisation factor not given)
+            if isinstance(mv, dict) and mv.get('err') == 'NaN':
+                continue        # division by zero somewhere in the tree: see above
             if isinstance(v, dict) or isinstance(mv, dict):
                 if not (isinstance(v, dict) and isinstance(mv, dict) and v.get('err') == mv.get('err')):
                     return '%s: samples of object %s: impl %s vs model %s' % (where, i, core._short(v), core._short(mv))
@@ -906,16 +944,18 @@ def gen_leaf(rng, kind):
     if kind == 'bandpass':
         r = rng.random()
         if r < 0.7:
-            w = O.dy(rng, 200, 6000, 2)
-            return {'leaf': 'box', 'amp': q(O.dy(rng, 0.0625, 1, 4)), 'x0': q(O.dy(rng, 2000, 8000, 2)), 'width': q(w),
+            x0 = O.dy(rng, 2000, 8000, 2)
+            w = O.dy(rng, 200, int(x0), 2)          # the default sampling set stays at positive wavelengths
+            return {'leaf': 'box', 'amp': q(O.dy(rng, 0.0625, 1, 4)), 'x0': q(x0), 'width': q(w),
                     'step': q(w / rng.choice([4, 8, 16]))}
         return {'leaf': 'const1', 'amp': q(O.dy(rng, 0.0625, 2, 4))}
     r = rng.random()
     if r < 0.45:
         return {'leaf': 'constflux', 'amp': q(O.dy(rng, 0.0625, 8, 4)), 'unit_name': rng.choice(['photlam', 'flam'])}
     if r < 0.8:
-        w = O.dy(rng, 500, 6000, 2)
-        return {'leaf': 'box', 'amp': q(O.dy(rng, 0.0625, 8, 4)), 'x0': q(O.dy(rng, 3000, 7000, 2)), 'width': q(w),
+        x0 = O.dy(rng, 3000, 7000, 2)
+        w = O.dy(rng, 500, int(x0), 2)
+        return {'leaf': 'box', 'amp': q(O.dy(rng, 0.0625, 8, 4)), 'x0': q(x0), 'width': q(w),
                 'step': q(w / rng.choice([4, 8, 16]))}
     return {'leaf': 'gaussian', 'amp': q(O.dy(rng, 0.0625, 8, 4)), 'mean': q(O.dy(rng, 4000, 7000, 2)), 'sd': q(O.dy(rng, 50, 300, 2))}
 
@@ -930,7 +970,14 @@ def opt_w(rng, p=0.5):
 
 def gen_step(rng, k):
     r = rng.random()
-    if k < 2 or r < 0.13:
+    if k < 2 and rng.random() < 0.85:
+        # most histories start with a source and a bandpass, so that normalize / Observation have operands
+        kind = 'source' if k == 0 else 'bandpass'
+        if rng.random() < 0.3:
+            return {'do': 'new_analytic', 'kind': kind, 'leaf': gen_leaf(rng, kind)}
+        return {'do': 'new_empirical', 'kind': kind, 'x': S(rng), 'y': S(rng), 'keep_neg': rng.random() < 0.35,
+                'meta': S(rng) if rng.random() < 0.5 else None}
+    if r < 0.10:
         return {'do': 'new_empirical', 'kind': rng.choice(['source', 'source', 'bandpass', 'bandpass', 'reddening']),
                 'x': S(rng), 'y': S(rng), 'keep_neg': rng.random() < 0.35, 'meta': S(rng) if rng.random() < 0.5 else None}
     if r < 0.19:
@@ -939,9 +986,9 @@ def gen_step(rng, k):
     if r < 0.23:
         t = rng.choice([F(5000), F(12000), F(300), F(-5), F(-300)]) if rng.random() < 0.6 else F(rng.choice([3000, 6000, 9000]))
         return {'do': 'new_blackbody', 'temp': q(t)}
-    if r < 0.34:
+    if r < 0.32:
         return {'do': 'sample', 'o': S(rng), 'w': S(rng)}
-    if r < 0.46:
+    if r < 0.43:
         rb = rng.random()
         if rb < 0.6:
             b = {'sel': S(rng)}
@@ -950,12 +997,12 @@ def gen_step(rng, k):
         else:
             b = {'bad': rng.choice(BAD_OPERANDS)[0]}
         return {'do': 'arith', 'op': rng.choice(['mul', 'mul', 'mul', 'add', 'sub', 'div']), 'a': S(rng), 'b': b}
-    if r < 0.48:
+    if r < 0.45:
         return {'do': 'rmul', 'v': q(rng.choice([F(2), F(1, 2), F(3)])), 'a': S(rng)}
-    if r < 0.55:
+    if r < 0.53:
         return {'do': 'normalize', 'o': S(rng), 'band': S(rng), 'force': rng.random() < 0.5, 'wild': rng.random() < 0.1,
                 'val': rng.choice(['flam', 'flam', 'photlam', 'abmag', 'number', 'count'])}
-    if r < 0.60:
+    if r < 0.58:
         return {'do': 'taper', 'o': S(rng)}
     if r < 0.69:
         return {'do': 'observation', 'src': S(rng), 'band': S(rng), 'wild': rng.random() < 0.1,
@@ -989,6 +1036,15 @@ def gen_step(rng, k):
 def follow_ups(rng, st):
     """after a call that builds a result: edit the result's metadata (meta_no_alias), re-sample"""
     out = []
+    if st['do'] == 'new_blackbody' and unq(st['temp']) < 0 and rng.random() < 0.8:
+        # sampling it raises inside BlackBody1D.evaluate
+        out.append(rng.choice([{'do': 'sample', 'o': -1, 'w': S(rng)},
+                               {'do': 'integrate', 'o': -1, 'w': S(rng), 'itype': 'trapezoid'},
+                               {'do': 'query', 'o': -1, 'w': S(rng), 'm': 'avgwave'},
+                               {'do': 'arith', 'op': 'mul', 'a': -1, 'b': {'scalar': 'float', 'v': '2'}}]))
+    if st['do'] == 'new_empirical' and st['keep_neg'] and rng.random() < 0.4:
+        # a second object on the same caller-owned arrays, this time with negative values removed
+        out.append(dict(st, keep_neg=False, meta=None))
     if st['do'] in ('arith', 'normalize', 'observation', 'rmul') and rng.random() < 0.5:
         # the newest object is addressed by selector -1 (n % len == len - 1)
         out.append({'do': 'set_warnings', 'o': -1, 'w': [['edited', jcanon('yes')]]})
@@ -999,10 +1055,17 @@ def follow_ups(rng, st):
 
 def gen_case(rng, K, maxlen):
     arrays, dicts = gen_pool(rng)
-    n = rng.randint(3, maxlen)
+    # re-sampling every live object after every call makes a history's cost quadratic in its length:
+    # 40 % of the histories use the full length range, the rest the lower third
+    n = rng.randint(3, maxlen) if rng.random() < 0.4 else rng.randint(3, max(4, maxlen // 3))
     steps = []
+    nbb = 0
     while len(steps) < n:
         st = gen_step(rng, len(steps))
+        if st['do'] == 'new_blackbody':
+            nbb += 1
+            if nbb > 2:         # every re-sampling of a black body costs ~10 ms of astropy unit handling
+                continue
         steps.append(st)
         steps.extend(follow_ups(rng, st))
     return {'op': 'heap_history', 'const': K, 'arrays': arrays, 'dicts': dicts,
